@@ -274,6 +274,8 @@ def gen(rnd: random.Random, opts: dict) -> Design:
         add_same_transaction_conflict_pattern(D, rnd)
     if rnd.random() < opts.get("p_excl_order", 0.05):
         add_exclusive_ordered_pair_pattern(D, rnd)
+    if opts.get("p_case_after_if", 0.0) and rnd.random() < opts["p_case_after_if"]:
+        add_case_after_if_pattern(D, rnd)
     return D
 
 
@@ -320,6 +322,41 @@ def add_exclusive_ordered_pair_pattern(D, rnd):
     D.confl.append((reader.key, other.key, Priority.UNDEFINED))
     D.count_excl_ordered = True
     return True
+
+
+def add_case_after_if_pattern(D, rnd):
+    """Forced layout class (seeded defect C02e): the FIRST body of an elaboratable is defined under the first control structure of the module
+    scope (an `If`), a later body of the same elaboratable in a `Case` of a later, independent module-level `Switch`, and the two are related
+    by add_conflict. Alternatives of different structures of one scope are not mutually exclusive: the conflict must be kept. (A control-path
+    edge of the Case that loses its structure index makes the pair look like two alternatives of the first structure.)"""
+    D.modsw = getattr(D, "modsw", {})
+    for chunk in module_chunks(D):
+        if len(chunk) < 2:
+            continue
+        a = chunk[0]
+        wa = D.modwrap.get(a.key)
+        if wa is not None and wa[1] != 0:
+            continue
+        cands = [b for b in chunk[1:] if b.key not in D.modwrap and b.key not in D.modsw]
+        if not cands:
+            continue
+        b = rnd.choice(cands)
+        if wa is None:
+            sid = D.struct
+            D.struct += 1
+            D.nbits += 1
+            D.modwrap[a.key] = (sid, 0, D.nbits - 1)
+            add_prefix(a, ((("if", sid), 0),))
+        sid2 = D.struct
+        D.struct += 1
+        D.nbits += 2
+        val = rnd.randrange(4)
+        D.modsw[b.key] = (sid2, (D.nbits - 2, D.nbits - 1), val)
+        add_prefix(b, ((("sw", sid2), 0),))
+        D.confl.append((a.key, b.key, rnd.choice([Priority.UNDEFINED, Priority.LEFT, Priority.RIGHT])))
+        D.count_case_after_if = True
+        return True
+    return False
 
 
 def add_cross_module_conflict_pattern(D, rnd):
@@ -1164,7 +1201,12 @@ class Emit(Elaboratable):
         while i < len(bodies):
             b = bodies[i]
             w = wrap.get(b.key)
-            if w is None:
+            msw = getattr(D, "modsw", {}).get(b.key)
+            if msw is not None:
+                with m.Switch(Cat(self.bits[msw[1][0]], self.bits[msw[1][1]])):
+                    with m.Case(msw[2]):
+                        body(b)
+            elif w is None:
                 body(b)
             else:
                 sid, alt, cbit = w
@@ -1291,7 +1333,8 @@ def describe(D):
         return d
 
     return {"bodies": [body_repr(b) for b in D.order], "conflicts": [[str(a), str(b), p.name] for a, b, p in D.confl],
-            "schedule_before": [[str(a), str(b), rd] for a, b, rd in D.sb]}
+            "schedule_before": [[str(a), str(b), rd] for a, b, rd in D.sb],
+            **({"module_level_switch_case": {str(k): list(v) for k, v in D.modsw.items()}} if getattr(D, "modsw", None) else {})}
 
 
 def run_design(rec: Rec, D, A, rnd: random.Random, case: dict, sched: str = "eager", cycles: int = 200, exhaustive_limit: int = 10):
@@ -1330,6 +1373,8 @@ def run_design(rec: Rec, D, A, rnd: random.Random, case: dict, sched: str = "eag
                 D.swinfo[st[1]] = (st[2], [v for v, _ in st[3]])
     for key, (sid, alt, cbit) in getattr(D, "modwrap", {}).items():
         D.ifconds[sid] = [cbit]
+    for key, (sid, sel, val) in getattr(D, "modsw", {}).items():
+        D.swinfo[sid] = (sel, [val])
     nb = len(e.bits)
     exhaustive = nb <= exhaustive_limit and not D.fsms and not any(w[1] == "sync" for w in D.wits)
     aliases_of = collections.defaultdict(list)
@@ -1640,6 +1685,8 @@ def run_design(rec: Rec, D, A, rnd: random.Random, case: dict, sched: str = "eag
     rec.count("designs_simulated")
     if getattr(D, "count_xmod_shared_call", False):
         rec.count("designs_with_cross_module_mirrored_call_sites")
+    if getattr(D, "count_case_after_if", False):
+        rec.count("designs_with_conflict_between_first_if_body_and_later_switch_case_body")
     if getattr(D, "count_excl_ordered", False):
         rec.count("designs_with_exclusive_but_ordered_pair")
     if getattr(D, "relations_via_proxy", 0):
